@@ -9,6 +9,7 @@ import (
 	"path/filepath"
 	"regexp"
 	"sort"
+	"strings"
 	"testing"
 	"time"
 
@@ -176,10 +177,14 @@ func explore(t *testing.T, l core.Lens, job *Job, emit func(rec)) {
 				st.KnownSeen[k.Class+" "+k.KeyRe]++
 				continue
 			}
-			if found[v.Class] {
+			dk := v.Class
+			if strings.HasSuffix(v.Class, "/panic") {
+				dk += "|" + v.Key // distinct panic sites are distinct findings
+			}
+			if found[dk] {
 				continue
 			}
-			found[v.Class] = true
+			found[dk] = true
 			// shrink, write the replay, report
 			min, runs := core.Shrink(t, l, plan, v.Class, 300, 60*time.Second)
 			mres := core.RunPlan(t, l, min, false)
@@ -196,7 +201,11 @@ func explore(t *testing.T, l core.Lens, job *Job, emit func(rec)) {
 			}
 			rf := ReplayFile{Plan: min, Violation: mv, EventHash: fmt.Sprintf("%016x", mres.Hash), Minimised: minimised, ShrinkRuns: runs}
 			rf.FoundAt.BaseSeed, rf.FoundAt.Index = job.BaseSeed, idx
-			path := filepath.Join(job.ReplayDir, fmt.Sprintf("%s-%d-%s.json", job.Property, plan.Seed, sanitize(v.Class)))
+			suffix := sanitize(v.Class)
+			if dk != v.Class {
+				suffix += fmt.Sprintf("-%08x", uint32(hashBytes([]byte(v.Key))))
+			}
+			path := filepath.Join(job.ReplayDir, fmt.Sprintf("%s-%d-%s.json", job.Property, plan.Seed, suffix))
 			b, _ := json.MarshalIndent(rf, "", " ")
 			os.MkdirAll(job.ReplayDir, 0755)
 			if err := os.WriteFile(path, b, 0644); err != nil {
@@ -231,7 +240,7 @@ func explore(t *testing.T, l core.Lens, job *Job, emit func(rec)) {
 		if time.Now().After(deadline) {
 			break
 		}
-		if len(found) >= 3 {
+		if len(found) >= 4 {
 			break
 		}
 		plan := core.GenPlan(l, job.BaseSeed, job.Tier, idx)
